@@ -280,3 +280,72 @@ package dt
 //@   loop 1 invariant out.elems == old(list.elems)[:total - len(list.elems)] && list.elems == old(list.elems)[total - len(list.elems):]
 //@   loop 1 invariant forall m: List :: m != list && m != out && old(wf(m)) ==> wf(m) && m.elems == old(m.elems)
 //@   loop 1 decreases len(list.elems)
+
+// ---------------------------------------------------------------------------
+// Set (C18): hash index (a Go map from value to its order element, nil when the
+// set is unordered) + optional order list, kept in bijection.
+// ---------------------------------------------------------------------------
+
+// coupling of index and order list (the set is initialised: hash != nil)
+//@ pred sinv(s *Set) = s != nil && s.hash != nil && (s.list == nil ==> (forall k: int :: haskey(s.hash, k) ==> s.hash[k] == nil)) && (s.list != nil ==> lwf(s.list) && len(s.list.elems) == len(s.hash)
+//@ |  && (forall i: int :: 0 <= i && i < len(s.list.elems) ==> haskey(s.hash, cast(s.list.elems[i], "*Element").item) && s.hash[cast(s.list.elems[i], "*Element").item] == s.list.elems[i])
+//@ |  && (forall k: int :: haskey(s.hash, k) ==> s.hash[k] != nil && member(s.list, s.hash[k]) && cast(s.hash[k], "*Element").item == k))
+// a set that may not have been used yet (hash == nil: empty)
+//@ pred spre(s *Set) = s != nil && (s.hash == nil ? (s.list == nil || (lwf(s.list) && len(s.list.elems) == 0)) : sinv(s))
+
+// lock / with: the optional mutex is read through an atomic.Value and a generic
+// type switch, outside the engine's subset. ASSUMED: lock() returns the set's
+// mutex (or nil) holding it, and initialises the hash index if needed; with(m)
+// releases it.
+//@ func (*Set).lock
+//@   props C18
+//@   trusted optional mutex behind atomic.Value (outside the modelled subset)
+//@   requires s != nil
+//@   modifies s.hash
+//@   ensures s.hash != nil && (old(s.hash) != nil ==> s.hash == old(s.hash)) && (old(s.hash) == nil ==> fresh(s.hash) && len(s.hash) == 0 && (forall k: int :: !haskey(s.hash, k)))
+//@   ensures result != nil ==> held(result)
+
+//@ func (*Set).with
+//@   props C18
+//@   trusted releases the optional mutex (ft.WhenCall(m != nil, m.Unlock))
+//@   ensures m != nil ==> !held(m)
+
+//@ func (*Set).Len
+//@   props C18
+//@   requires spre(s)
+//@   modifies s.hash
+//@   ensures result == len(s.hash) && (old(s.hash) == nil ==> result == 0) && sinv(s)
+
+//@ func (*Set).Check
+//@   props C18
+//@   requires spre(s)
+//@   modifies s.hash
+//@   ensures result == haskey(s.hash, in) && (old(s.hash) == nil ==> !result) && (old(s.hash) != nil ==> result == old(haskey(s.hash, in))) && sinv(s)
+
+// AddCheck: reports whether the value was already a member; afterwards it is;
+// no other membership changes; a new member of an ordered set goes to the end
+// of the order, re-adding a present value does not move it.
+//@ func (*Set).AddCheck
+//@   props C18
+//@   requires spre(s)
+//@   modifies s.hash, mapelems(s.hash), s.list.root, List.length, Element.list, Element.next, Element.prev, List.elems, List.lastIns, Element.idx
+//@   ensures sinv(s) && haskey(s.hash, in)
+//@   ensures result == (old(s.hash) != nil && old(haskey(s.hash, in)))
+//@   ensures othersk: forall k: int :: k != in ==> (haskey(s.hash, k) == (old(s.hash) != nil && old(haskey(s.hash, k))))
+//@   ensures size: len(s.hash) == (old(s.hash) == nil ? 0 : old(len(s.hash))) + (result ? 0 : 1)
+//@   ensures kept: result && s.list != nil ==> s.list.elems == old(s.list.elems)
+//@   ensures appended: !result && s.list != nil ==> len(s.list.elems) == len(old(s.list.elems)) + 1 && s.list.elems[:len(old(s.list.elems))] == old(s.list.elems) && cast(s.list.elems[len(s.list.elems) - 1], "*Element").item == in
+
+// DeleteCheck: reports whether the value was a member; afterwards it is not;
+// no other membership changes; in an ordered set the value's element leaves
+// the order and every other element keeps its relative position.
+//@ func (*Set).DeleteCheck
+//@   props C18
+//@   requires spre(s)
+//@   modifies s.hash, mapelems(s.hash), List.length, Element.list, Element.next, Element.prev, List.elems, List.lastIns, Element.idx
+//@   ensures sinv(s) && !haskey(s.hash, in)
+//@   ensures result == (old(s.hash) != nil && old(haskey(s.hash, in)))
+//@   ensures othersk: forall k: int :: k != in ==> (haskey(s.hash, k) == (old(s.hash) != nil && old(haskey(s.hash, k))))
+//@   ensures size: len(s.hash) == (old(s.hash) == nil ? 0 : old(len(s.hash))) - (result ? 1 : 0)
+//@   ensures kept: !result && s.list != nil ==> s.list.elems == old(s.list.elems)
+//@   ensures removed: result && s.list != nil ==> s.list.elems == remove(old(s.list.elems), old(cast(s.hash[in], "*Element").idx))
